@@ -36,7 +36,8 @@ def gen_cases(tier, seed):
                     continue
                 if "umnn" in fam and pol not in ("fresh", "randn0.3", "randn1"):
                     continue
-                world = "f32" if (ci + pi) % 5 == 4 and pol in ("fresh", "randn1", "randn0.3") else "f64"
+                # float32 pass: finiteness / loose round trip on moderate parameters only (float32 accuracy is C19's clause)
+                world = "f32" if (ci + pi) % 5 == 4 and pol in ("fresh", "randn0.3") else "f64"
                 cases.append({"kind": "zoo", "cfg": cfg, "policy": pol, "seed": env.subseed(seed, "c02", fam, ci, pol),
                               "world": world, "batch": 5 if tier == "quick" else 8,
                               "cost": 8 if "umnn" in fam else (3 if len(cfg.get("shape", [1])) == 3 else 1)})
@@ -244,9 +245,12 @@ def run_case(case):
                     r.count("kink_items_undecided")
                     a = 0.0
             # cancellation inside the transformers (slopes from differenced cumulative sums): relative error ~eps/derivative
-            allowed = allowed + 1e-13 * float(np.exp(min(abs(float(lad_f2[i])), 60.0)))
-            sat_lim = 60.0
-            if a > allowed and abs(float(lad_f2[i])) < sat_lim:
+            allowed = allowed + 1e-13 * float(np.exp(min(max(abs(float(lad_f2[i])), abs(float(lad_i[i]))), 60.0)))
+            sat_lim = 20.0 + 2.0 * xi_[i].numel()
+            worst_lad = max(abs(float(lad_f2[i])), abs(float(lad_i[i])))
+            if a > allowed and worst_lad >= sat_lim:
+                r.count("antisymmetry_saturated_skipped")
+            if a > allowed and worst_lad < sat_lim:
                 # conditioning: the inverse's own backward error (~1e-13 relative) moves x' by err/sigma_min, and the
                 # log-det can be very sensitive to x' (strongly non-uniform bins): estimate both numerically
                 try:
@@ -277,7 +281,7 @@ def run_case(case):
                 # (their parts are judged individually here, their bookkeeping by C08)
                 r.count("antisymmetry_not_judged")
                 a = 0.0
-            if a > allowed and abs(float(lad_f2[i])) < sat_lim:
+            if a > allowed and worst_lad < sat_lim:
                 emit(r, "antisymmetry", "%s inverse logabsdet != -forward logabsdet at inverse(y)" % fam, cubic_nu,
                      policy=pol, world=world, cfg=cfg, inv=float(lad_i[i]), fwd_at_inverse=float(lad_f2[i]),
                      direction=label)
